@@ -1,7 +1,7 @@
 (* P_C03.v — property C03: outcome aggregation is severity-maximal,
    order-insensitive and lossless.  Statements only; proofs are in
    proofs/Outcome_proofs.v.  Model: model/Outcome.v (src/koreo/result.py). *)
-From Koreo Require Import Json Outcome Outcome_proofs.
+From Koreo Require Import Json Outcome Outcome_proofs Outcome_gen Outcome_sync.
 From Coq Require Import Permutation.
 Local Open Scope nat_scope.
 Local Open Scope list_scope.
@@ -84,6 +84,13 @@ Section C03.
   Proof. exact (unwrapped_combine_class V). Qed.
 End C03.
 
+(* The tie to the code, as a proof obligation: the model's [combine2] (what
+   self.combine(other) computes) is equal to the transcription of the five
+   `combine` methods regenerated from src/koreo/result.py on every run. *)
+Theorem C03_model_is_transcription_of_code : forall (V : Type) (a b : outcome V),
+  combine2_gen V a b = combine2 a b.
+Proof. exact combine2_gen_eq. Qed.
+
 (* non-vacuity: a mixed raw sequence meets the hypotheses, and the theorems say
    something definite about it *)
 Example C03_nonvacuous :
@@ -103,3 +110,4 @@ Print Assumptions C03_permfail.
 Print Assumptions C03_skip_member.
 Print Assumptions C03_ok_only_if_no_error.
 Print Assumptions C03_unwrapped.
+Print Assumptions C03_model_is_transcription_of_code.
